@@ -28,8 +28,7 @@ theorem Fs.has_update (fs : Fs) (i id : Nat) (g : File → File) (hg : ∀ f, (g
 theorem Fs.has_write (fs : Fs) (i : Nat) (bs : Bytes) (id : Nat) : (fs.write i bs).has id = fs.has id :=
   Fs.has_update fs i id _ (fun _ => rfl) (fun _ => rfl)
 
-theorem Fs.has_sync (fs : Fs) (i : Nat) (id : Nat) : (fs.sync i).has id = fs.has id :=
-  Fs.has_update fs i id _ (fun _ => rfl) (fun _ => rfl)
+-- `Fs.has_sync` now lives in `Proofs/Recover.lean` (D15).
 
 theorem Fs.has_unlink (fs : Fs) (i id : Nat) : (fs.unlink i).has id = (fs.has id && id != i) := by
   unfold Fs.has Fs.unlink
